@@ -101,6 +101,78 @@ func newEngine() *promql.Engine {
 	})
 }
 
+// engine with experimental functions (histogram_quantiles)
+func newEngineExp() *promql.Engine {
+	return promql.NewEngine(promql.EngineOpts{
+		MaxSamples:               1000000,
+		Timeout:                  100 * time.Second,
+		NoStepSubqueryIntervalFn: func(int64) int64 { return 60000 },
+		EnableAtModifier:         true,
+		EnableNegativeOffset:     true,
+		LookbackDelta:            5 * time.Minute,
+		Parser:                   parser.NewParser(parser.Options{EnableExperimentalFunctions: true}),
+	})
+}
+
+// shape key: histogram_quantiles (plural) re-uses the bucket slice that BucketQuantile sorted and
+// coalesced in place; with duplicate upper bounds the later quantiles see a stale tail
+const shapePluralDup = "plural-quantiles-duplicate-le-stale-tail"
+
+// runPlural evaluates histogram_quantiles(<metric>, "q", qs...) in chunks of at most 8 quantiles
+// (in the given order) and returns the result per quantile.
+func runPlural(ng *promql.Engine, qbl storage.Queryable, metric string, qs []float64) (out []float64, err error) {
+	defer func() {
+		if r := recover(); r != nil {
+			err = fmt.Errorf("panic: %v", r)
+		}
+	}()
+	for start := 0; start < len(qs); start += 8 {
+		end := start + 8
+		if end > len(qs) {
+			end = len(qs)
+		}
+		var args []string
+		for _, q := range qs[start:end] {
+			args = append(args, lit(q))
+		}
+		expr := fmt.Sprintf("histogram_quantiles(%s, \"q\", %s)", metric, strings.Join(args, ", "))
+		qry, err := ng.NewInstantQuery(context.Background(), qbl, nil, expr, time.UnixMilli(evalTs))
+		if err != nil {
+			return nil, err
+		}
+		res := qry.Exec(context.Background())
+		if res.Err != nil {
+			qry.Close()
+			return nil, res.Err
+		}
+		vec, err := res.Vector()
+		if err != nil {
+			qry.Close()
+			return nil, err
+		}
+		byQ := map[string]float64{}
+		for _, s := range vec {
+			if s.H != nil {
+				qry.Close()
+				return nil, fmt.Errorf("histogram result")
+			}
+			byQ[s.Metric.Get("q")] = s.F
+		}
+		qry.Close()
+		if len(byQ) != end-start || len(vec) != end-start {
+			return nil, fmt.Errorf("%s: %d result samples for %d quantiles", expr, len(vec), end-start)
+		}
+		for _, q := range qs[start:end] {
+			v, ok := byQ[labels.FormatOpenMetricsFloat(q)]
+			if !ok {
+				return nil, fmt.Errorf("%s: no sample with q=%s", expr, labels.FormatOpenMetricsFloat(q))
+			}
+			out = append(out, v)
+		}
+	}
+	return out, nil
+}
+
 const evalTs = 1000
 
 // run evaluates expr as an instant query and returns the single float result.
@@ -341,9 +413,15 @@ func genCustom(r *gen.Rand) ncase {
 	h := &histogram.FloatHistogram{Schema: histogram.CustomBucketsSchema}
 	k := r.Intn(7)
 	set := map[float64]bool{}
+	allNeg := r.Chance(1, 6) // all bounds negative: the +Inf overflow bucket straddles zero
 	for len(set) < k {
 		var v float64
-		switch r.Intn(4) {
+		sel := r.Intn(4)
+		if allNeg {
+			set[-dy(r, 1, 32, 4)] = true
+			continue
+		}
+		switch sel {
 		case 0:
 			v = dy(r, -8, 2, 4)
 		case 1:
@@ -383,6 +461,8 @@ func genCustom(r *gen.Rand) ncase {
 	kind := "custom"
 	if k == 0 {
 		kind = "custom/nobounds"
+	} else if allNeg {
+		kind = "custom/allneg"
 	}
 	finishCounts(r, h, &kind)
 	return ncase{h: h, kind: kind}
@@ -407,6 +487,19 @@ func nativeCorpus() []ncase {
 	// same with an empty trailing bucket (the old code returned +Inf)
 	l = append(l, ncase{corpus: "nan-sum-old-empty-tail", h: &histogram.FloatHistogram{Schema: 0, Count: 12, Sum: math.NaN(),
 		PositiveSpans: []histogram.Span{{Offset: 0, Length: 3}}, PositiveBuckets: []float64{3, 4, 0}}})
+	// empty leading and trailing buckets, queried at q = 0 and q = 1 (the search must skip them)
+	l = append(l, ncase{corpus: "empty-edge-buckets", h: &histogram.FloatHistogram{Schema: 0, Count: 7, Sum: 10,
+		PositiveSpans: []histogram.Span{{Offset: 0, Length: 4}}, PositiveBuckets: []float64{0, 3, 4, 0}}})
+	l = append(l, ncase{corpus: "empty-edge-buckets-neg", h: &histogram.FloatHistogram{Schema: 1, Count: 6, Sum: -10,
+		NegativeSpans: []histogram.Span{{Offset: -1, Length: 4}}, NegativeBuckets: []float64{0, 1, 5, 0}}})
+	l = append(l, ncase{corpus: "empty-edge-buckets-custom", h: &histogram.FloatHistogram{Schema: histogram.CustomBucketsSchema, Count: 5, Sum: 10,
+		CustomValues: []float64{1, 2, 4}, PositiveSpans: []histogram.Span{{Offset: 0, Length: 4}}, PositiveBuckets: []float64{0, 2, 3, 0}}})
+	// custom bounds all negative, observations in the (-5,+Inf) overflow bucket (it has Lower < 0 < Upper
+	// but is not a zero bucket)
+	l = append(l, ncase{corpus: "custom-all-negative-overflow", h: &histogram.FloatHistogram{Schema: histogram.CustomBucketsSchema, Count: 9, Sum: -3,
+		CustomValues: []float64{-10, -5}, PositiveSpans: []histogram.Span{{Offset: 0, Length: 3}}, PositiveBuckets: []float64{2, 3, 4}}})
+	l = append(l, ncase{corpus: "custom-all-negative-only-overflow", h: &histogram.FloatHistogram{Schema: histogram.CustomBucketsSchema, Count: 4, Sum: 3,
+		CustomValues: []float64{-2}, PositiveSpans: []histogram.Span{{Offset: 1, Length: 1}}, PositiveBuckets: []float64{4}}})
 	// gap between populated buckets, rank exactly at the boundary (forward / reverse tie)
 	l = append(l, ncase{corpus: "gap-tie", h: &histogram.FloatHistogram{Schema: 0, Count: 8, Sum: 20,
 		PositiveSpans: []histogram.Span{{Offset: 1, Length: 1}, {Offset: 1, Length: 1}}, PositiveBuckets: []float64{4, 4}}})
@@ -623,6 +716,7 @@ func main() {
 		Preamble: "From Coq Require Import List ZArith QArith Uint63.\nFrom Verif Require Import model.Quantile corr.CorrC32.\nImport ListNotations.\nOpen Scope uint63_scope.\n",
 		Footer:   gallina.StdFooter}
 	ng := newEngine()
+	ngx := newEngineExp()
 	id := 0
 	seen := map[string]bool{}
 	goViol := func(shape, what string) {
@@ -667,13 +761,28 @@ func main() {
 				populated++
 			}
 		}
-		for _, q := range quantiles(r) {
+		ngrid := quantiles(r)
+		var nsing []float64
+		for _, q := range ngrid {
 			v, _ := promql.HistogramQuantile(q, h.Copy(), "m", posrange.PositionRange{})
+			nsing = append(nsing, v)
 			eng(fmt.Sprintf("histogram_quantile(%s, m)", lit(q)), v, true)
 			qTerms = append(qTerms, "("+qTerm(q)+", "+resTerm(v)+")")
 			qS = append(qS, fmt.Sprintf("%v:%v", q, v))
 			if math.IsNaN(v) && q >= 0 && q <= 1 && h.Count != 0 {
 				meta.Hit("native-quantile-nan")
+			}
+		}
+		if pl, err := runPlural(ngx, qbl, "m", ngrid); err != nil {
+			shape = "engine-error"
+			goViol(shape, "histogram_quantiles: "+err.Error())
+		} else {
+			for i, q := range ngrid {
+				if !sameFloat(pl[i], nsing[i]) {
+					shape = "plural-differs"
+					goViol(shape, fmt.Sprintf("histogram_quantiles(m, \"q\", ..., %v, ...) gives %v but HistogramQuantile = %v", q, pl[i], nsing[i]))
+					break
+				}
 			}
 		}
 		// interval end points: +-Inf, bucket boundaries, interior points, zero
@@ -760,7 +869,9 @@ func main() {
 		qbl := queryable(series)
 		shape := "ok"
 		var qTerms, qS []string
-		for _, q := range quantiles(r) {
+		grid := quantiles(r)
+		var singular []float64
+		for _, q := range grid {
 			bs := make(promql.Buckets, len(c.bs))
 			for i, b := range c.bs {
 				bs[i] = promql.Bucket{UpperBound: b.ub, Count: b.c}
@@ -774,6 +885,7 @@ func main() {
 				shape = "engine-differs"
 				goViol(shape, fmt.Sprintf("histogram_quantile(%v, m_bucket) = %v but BucketQuantile = %v", q, ev, v))
 			}
+			singular = append(singular, v)
 			qTerms = append(qTerms, "("+qTerm(q)+", "+resTerm(v)+", "+gallina.Bool(forced)+")")
 			qS = append(qS, fmt.Sprintf("%v:%v", q, v))
 			if math.IsNaN(v) && q >= 0 && q <= 1 {
@@ -781,6 +893,38 @@ func main() {
 			}
 			if forced {
 				meta.Hit("classic-forced-monotonic-eval")
+			}
+		}
+		// histogram_quantiles (plural) must give, for every quantile, what histogram_quantile gives
+		dupLe := false
+		{
+			seenUb := map[float64]bool{}
+			for _, b := range c.bs {
+				if seenUb[b.ub] {
+					dupLe = true
+				}
+				seenUb[b.ub] = true
+			}
+		}
+		if pl, err := runPlural(ngx, qbl, "m_bucket", grid); err != nil {
+			if shape == "ok" {
+				shape = "engine-error"
+			}
+			goViol("engine-error", "histogram_quantiles: "+err.Error())
+		} else {
+			for i, q := range grid {
+				if !sameFloat(pl[i], singular[i]) {
+					sh := "plural-differs"
+					if dupLe {
+						sh = shapePluralDup
+					}
+					if shape == "ok" {
+						shape = sh
+					}
+					goViol(sh, fmt.Sprintf("histogram_quantiles(m_bucket, \"q\", ..., %v, ...) gives %v but histogram_quantile(%v, m_bucket) = %v", q, pl[i], q, singular[i]))
+					meta.Hit("classic-plural-differs")
+					break
+				}
 			}
 		}
 		var bTerms, bS []string
